@@ -139,13 +139,18 @@ def cubeCase (start c1 c2 e : Pt α) (o : SegOracle α) (s : SState α) : Option
       else { st with q := cubeTo G cut.2.2.1 cut.2.2.2.1 cut.2.2.2.2 st.q }
     some { st with rem := sel.2, T := O.add s.T o.dT }
 
+/-- the monotone clamp of fc041fc/feae37f: an angle that lies before the previous cut in the direction
+of the arc is replaced by the previous cut -/
+def clampTheta (O : SplitOps α) (o : SegOracle α) (startTheta theta : α) : α :=
+  if (O.le o.th1 o.th2) == (O.lt theta startTheta) then startTheta else theta
+
 /-- the cuts of one arc (path.go:1661-1679): state = (walk state, startTheta, nextLarge); `none` is
 the panic 'theta not in elliptic arc range for splitting' -/
 def arcCuts (rx ry phi : α) (sweep : Bool) (o : SegOracle α) :
     List α → SState α × α × Bool → Option (SState α × α × Bool)
   | [], acc => some acc
   | theta :: rest, (st, startTheta, _) =>
-    let theta := if (O.le o.th1 o.th2) == (O.lt theta startTheta) then startTheta else theta
+    let theta := clampTheta O o startTheta theta
     if !O.angleBetween theta startTheta o.th2 then none else
     let mid := O.ellipsePos rx ry phi o.cx o.cy theta
     let fl := splitFlags O.gtPi (O.absSub theta startTheta) (O.absSub theta o.th2)
